@@ -62,7 +62,7 @@ structure OInv (s : St) : Prop where
   pcConnO : ∀ t, s.pc t = .connected → s.ts ≠ none ∧ s.sop = true
   pcCaughtO : ∀ t e, s.pc t = .caught e → s.sopCtor = 0 ∧ s.sop = false ∧ (s.rcvMoved = true → s.lateThrow = true)
   armedO : s.sopArmed = true → s.succSig = none → s.ts ≠ none ∧ s.sop = true ∧ s.freed = false
-  tsPred : ∀ v p, s.ts = some v → s.predSig = some p → payload p = v
+  tsPred : ∀ v p, s.ts = some v → s.predSig = some p → payload p = v ∧ s.cfg.stores p = true
   freedDeliv : s.freed = true → s.delivered = 1
   selfFreed : s.cfg.selfdel = true → s.delivered = 1 → s.freed = true
   nfreeEq : s.nfree = b2n s.freed
